@@ -7,6 +7,6 @@ PROP = {
  'design_ref': 'DESIGN.md 5/C15',
  'level_text': 'All six types, versions 0..255, ids, strings (empty, NUL, 64 KiB), shard lists 0..300, TTL/nonce boundary tables: decode(encode(m)) must equal m with the version '
                'clamped to 1..4 (announce nonce compared iff clamped version >= 3), first byte = clamped version, encode(m) byte-identical to the independent encoder.',
- 'level_note': 'Announce work_nonce is not compared below wire version 3 (not carried; property silent). type/payload-alternative mismatches are not generated.',
+ 'level_note': 'Announce work_nonce is not compared below wire version 3 (not carried; property silent). type/payload-alternative mismatches are not generated. Second compiler: the same tapes also run against a g++ -O2 ASan/UBSan build of the code under test (engine \'tape-rc (second compiler…)\'), because the two compilers instrument and optimise undefined behaviour differently (e.g. abs(INT64_MIN) is only reported by g++\'s UBSan, and clang can fold such UB into a correct-looking result); failing tapes of that engine are kept as *.gcc.tape and replayed with that build.',
  'assumptions': ['message.type matches the payload alternative', 'TTL in [0, 2^32), field lengths < 2^32'],
- 'tiers': {'quick': [rc(100000)], 'thorough': [rc(500000, W)]}}
+ 'tiers': {'quick': [rc(100000), rc(100000, suffix='_gcc')], 'thorough': [rc(500000, W), rc(500000, 4, suffix='_gcc')]}}
